@@ -39,9 +39,9 @@ def normalize_index(index, ndim):
         index = int(index)
     if isinstance(index, (slice, int)):
         return tuple([index] + [slice(None) for i in range(ndim - 1)])
-    if isinstance(index, np.ndarray) and index.all():
+    if isinstance(index, np.ndarray) and index.dtype == bool and index.all():
         # The numpy test routines seem to like passing in ND arrays that are
-        # all True
+        # all True (an integer array without a 0 is an index, not a mask)
         return tuple(slice(None) for i in range(ndim))
 
     # If we've made it this far, we now have an indexing tuple.
@@ -164,7 +164,9 @@ class PipelineData(np.ndarray):
         elif time_slice is np.newaxis:
             raise IndexError('Pipeline data cannot be recast this way')
         elif isinstance(time_slice, list):
-            if not np.all(time_slice):
+            # Only an all-True mask leaves the time axis as it is
+            if not all(isinstance(t, (bool, np.bool_)) and t
+                       for t in time_slice):
                 raise ValueError('Cannot slice time using fancy indexing')
         else:
             if time_slice.start is not None:
@@ -173,7 +175,7 @@ class PipelineData(np.ndarray):
                 elif time_slice.start < 0:
                     obj.s0 = self.s0 + max(self.n_time + time_slice.start, 0)
             if time_slice.step is not None:
-                obj.fs /= time_slice.step
+                obj.fs = obj.fs / time_slice.step
 
         if channel_slice is np.newaxis:
             if not isinstance(obj.channel, list):
